@@ -294,6 +294,19 @@ class Interp:
             return join(self.eval(e.body, self.refine(st, e.test, True)), self.eval(e.orelse, self.refine(st, e.test, False)))
         if isinstance(e, ast.BoolOp):
             vals = [self.eval(v, st) for v in e.values]
+            # short-circuit value semantics when truthiness is known
+            is_or = isinstance(e.op, ast.Or)
+            out = None
+            for v in vals:
+                t = truthy(v)
+                if t is None:
+                    out = None
+                    break
+                out = v
+                if t == is_or:
+                    break
+            if out is not None:
+                return out
             out = vals[0]
             for v in vals[1:]:
                 out = join(out, v)
@@ -339,6 +352,17 @@ class Interp:
     def _slice(self, base: StrV, sl: ast.Slice, st):
         if sl.step is not None:
             return StrV(base.kind, base.no_cr, base.no_lf, base.maxb)
+        if base.exact is not None:
+            lo = self.eval(sl.lower, st) if sl.lower is not None else None
+            hi = self.eval(sl.upper, st) if sl.upper is not None else None
+
+            def exact_int(v):
+                return v.lo if isinstance(v, IntV) and v.lo is not None and v.lo == v.hi else None
+
+            a = None if lo is None else exact_int(lo)
+            b = None if hi is None else exact_int(hi)
+            if (lo is None or a is not None) and (hi is None or b is not None):
+                return lit(base.exact[a:b])
         up = self.eval(sl.upper, st) if sl.upper is not None else None
         maxb = base.maxb
         if isinstance(up, IntV) and up.hi is not None and up.hi >= 0:
@@ -373,6 +397,8 @@ class Interp:
             return IntV(None, None)
         if d == "len" and c.args:
             v = self.eval(c.args[0], st)
+            if isinstance(v, StrV) and v.exact is not None:
+                return IntV(len(v.exact), len(v.exact))
             if isinstance(v, StrV):
                 return IntV(0, v.maxb)
             if isinstance(v, _Elems):
@@ -448,6 +474,8 @@ class Interp:
             elif mode not in ("strict", "ignore"):
                 maxb = None
             return StrV("str", recv.no_cr, recv.no_lf, maxb, recv.prefix if mode in ("strict", "ignore") else None)
+        if name in ("strip", "lstrip", "rstrip", "lower", "upper") and isinstance(recv.exact, str) and all(isinstance(a, StrV) and isinstance(a.exact, str) for a in args):
+            return lit(getattr(recv.exact, name)(*[a.exact for a in args]))
         if name in ("strip", "lstrip", "rstrip", "lower", "upper", "casefold", "title", "capitalize", "swapcase"):
             keep_prefix = recv.prefix if name in ("rstrip",) else None
             maxb = recv.maxb if name in ("strip", "lstrip", "rstrip") else (None if recv.maxb is None else recv.maxb * 3)
@@ -541,6 +569,8 @@ class Interp:
         res: bool | None = True
         for i, op in enumerate(t.ops):
             a, b = vals[i], vals[i + 1]
+            if isinstance(b, TupleV) and all(isinstance(x, StrV) and isinstance(x.exact, str) for x in b.elts):
+                b = SetV(frozenset(x.exact for x in b.elts))
             r = None
             if isinstance(a, IntV) and isinstance(b, IntV):
                 r = _cmp_int(a, op, b)
@@ -654,8 +684,9 @@ class Interp:
                 if d and isinstance(a, StrV) and isinstance(a.exact, str):
                     cur = self.eval(mc[0], st)
                     cur = cur if isinstance(cur, StrV) else StrV("str")
-                    st = dict(st)
-                    st[d] = replace(cur, prefix=a.exact, exact=None)
+                    if cur.exact is None:
+                        st = dict(st)
+                        st[d] = replace(cur, prefix=a.exact)
                 return st
             if dotted(t.func) == "any" and not outcome and t.args and isinstance(t.args[0], ast.GeneratorExp):
                 # not any(c in x for c in "\r\n")
